@@ -94,6 +94,13 @@ Theorem C20_no_credentials_by_default : forall r c,
 Proof. exact no_credentials_by_default. Qed.
 Print Assumptions C20_no_credentials_by_default.
 
+(* app.py wiring: with cors_enable the app holds exactly one policy instance after any
+   sequence of add_middleware calls (a batch that would add a second one is refused). *)
+Theorem C20_cors_enable_single_instance : forall mw u batches,
+  app_init true mw = Some u -> count_cors (add_all true u batches) = 1%nat.
+Proof. exact cors_enable_single_instance. Qed.
+Print Assumptions C20_cors_enable_single_instance.
+
 (* The executable oracle the harness applies to the implementation accepts the model on
    every input. *)
 Theorem C20_oracle_sound : forall c rq h s,
